@@ -340,6 +340,10 @@ func runHistory(h *common.History, rng *rand.Rand) {
 	}
 	n := 15 + rng.IntN(60)
 	ctr := 0
+	big := rng.IntN(8) == 0 // a history with large datagrams
+	if big {
+		n = 10 + rng.IntN(20)
+	}
 	do := func(op ...string) {
 		h.Ops = append(h.Ops, op)
 		h.Obs = append(h.Obs, r.exec(op))
@@ -349,15 +353,25 @@ func runHistory(h *common.History, rng *rand.Rand) {
 		case c < 45:
 			ctr++
 			op := []string{"1", common.I(rng.IntN(7)), common.I(ctr % 256)}
-			for j, m := 0, rng.IntN(5); j < m; j++ {
-				op = append(op, common.I(rng.IntN(256)))
+			m := rng.IntN(5)
+			if big && rng.IntN(6) == 0 {
+				// datagrams at and just below the listener's receive MTU (8192 bytes), and an empty one now and then
+				m = []int{8191, 8190, 8191, 4000}[rng.IntN(4)]
+				h.Tags = append(h.Tags, "datagram_at_receive_mtu")
+			}
+			for j := 0; j < m; j++ {
+				op = append(op, common.I((ctr+j*7)%256))
 			}
 			do(op...)
 		case c < 63:
 			do("2")
 		case c < 83:
 			if len(r.conns) > 0 {
-				do("3", common.I(rng.IntN(len(r.conns))), common.I([]int{64, 64, 64, 2, 0}[rng.IntN(5)]))
+				sizes := []int{64, 64, 64, 2, 0}
+				if big {
+					sizes = []int{9000, 9000, 64, 8192, 2}
+				}
+				do("3", common.I(rng.IntN(len(r.conns))), common.I(sizes[rng.IntN(5)]))
 			}
 		case c < 93:
 			if len(r.conns) > 0 {
